@@ -84,6 +84,9 @@ where
             panic!("receiver consumed after completion");
         };
 
+        #[cfg(folo_verif)]
+        crate::verif_hook::touch(event_ref.get());
+
         let current_state = Self::event(event_ref).state.get();
 
         match current_state {
